@@ -251,6 +251,49 @@ def spectrum_to(case, ctx):
             raise Violation("C14.spectrum.two_arg", "to(wave_unit, flux_unit) differs from two successive calls")
 
 
+@hyp("C14", "spectrum_to_integer", lambda tier: st.fixed_dictionaries(
+        {"dtype": st.sampled_from(["int64", "int32", "int16", "uint16", "uint8", "int8"]),
+         "vdtype": st.sampled_from(["same", "same", "float64", "int64", "uint8"]),
+         "start": st.integers(1, 100), "steps": st.lists(st.integers(1, 6), min_size=2, max_size=12),
+         "vals": st.lists(st.integers(0, 120), min_size=13, max_size=13),
+         "unit": st.sampled_from(["m", "um", "nm", "angstrom"]), "valueunit": st.sampled_from([None] + FNAMES),
+         "path": st.lists(st.sampled_from(["m", "um", "nm", "angstrom"] + FNAMES), min_size=1, max_size=4)}),
+     "Spectrum.to on spectra whose whole-number wavelengths / values are held in integer arrays of any width: every "
+     "step gives the physical spectrum that the same numbers held as floats give (dtype of the storage is not part "
+     "of the quantity)", examples=(300, 1200))
+def spectrum_to_integer(case, ctx):
+    w = np.cumsum([case["start"]] + case["steps"])
+    if w[-1] > np.iinfo(case["dtype"]).max:
+        w = w[w <= np.iinfo(case["dtype"]).max]
+    if w.size < 2:
+        raise Skip("too_few_samples")
+    vdt = case["dtype"] if case["vdtype"] == "same" else case["vdtype"]
+    v = np.array(case["vals"][:w.size]) + (0 if case["valueunit"] is None else 1)
+    u, vu = case["unit"], case["valueunit"]
+    ctx.tag("dtype:" + case["dtype"], "valueunit:" + str(vu), "start:" + u)
+    ctx.nontrivial_if(any(p != u and p != vu for p in case["path"]))
+    with lentil_call("C14.spectrum_int.make", f"Spectrum({case['dtype']} wave, {vdt} value, {u}, {vu})"):
+        si = Spectrum(w.astype(case["dtype"]), v.astype(vdt), waveunit=u, valueunit=vu)
+        sf = Spectrum(w.astype(float), v.astype(float), waveunit=u, valueunit=vu)
+    for step in case["path"]:
+        if step in FNAMES and vu is None:
+            continue
+        with lentil_call("C14.spectrum_int.to", f"to({step}) of a Spectrum with {case['dtype']} wavelengths {w[:4]}... ({u}, {vu})"):
+            with np.errstate(all="ignore"):
+                si.to(step)
+                sf.to(step)
+        gi, gf = np.asarray(si.wave, dtype=float), np.asarray(sf.wave, dtype=float)
+        vi, vf = np.asarray(si.value, dtype=float), np.asarray(sf.value, dtype=float)
+        if gi.shape != gf.shape or not np.allclose(gi, gf, rtol=1e-12, atol=0):
+            raise Violation("C14.spectrum_int.wave", f"after to({step}) in path {case['path']}: wavelengths {gi[:3]} from "
+                                                     f"{case['dtype']} storage, {gf[:3]} from float storage")
+        if vi.shape != vf.shape or not np.allclose(vi, vf, rtol=1e-11, atol=0):
+            raise Violation("C14.spectrum_int.value", f"after to({step}) in path {case['path']}: values {vi[:3]} from "
+                                                      f"{vdt} storage, {vf[:3]} from float storage")
+        if si.waveunit != sf.waveunit or si.valueunit != sf.valueunit:
+            raise Violation("C14.spectrum_int.unit", f"units ({si.waveunit}, {si.valueunit}) vs ({sf.waveunit}, {sf.valueunit})")
+
+
 # --- Planck ----------------------------------------------------------------------------------------------
 
 @st.composite
@@ -270,6 +313,64 @@ def planck_case(draw, tier):
 def planck_si(lam, T, pi_factor):
     h, c, k = rad.H, rad.C, rad.K
     return pi_factor * 2 * h * c ** 2 / (lam ** 5 * np.expm1(h * c / (lam * k * T)))
+
+
+@st.composite
+def planck_int_case(draw, tier):
+    """Whole-number wavelengths held in an integer array / integer scalar (tabulated grids such as arange(400, 4000) nm,
+    or metre waves 1, 2, 3 ... m), in every wavelength unit."""
+    dt = draw(st.sampled_from(["int64", "int64", "int32", "int16", "uint16", "uint8", "int8", "uint64", "pyint"]))
+    top = {"int8": 127, "uint8": 255, "int16": 32767, "uint16": 65535}.get(dt, 10**6)
+    hi = draw(st.sampled_from([9, 100, 127, 255, 4000, 32767, 10**5, 10**6]))
+    hi = min(hi, top)
+    n = draw(st.integers(1, 10))
+    w = sorted(set(draw(st.lists(st.integers(1, hi), min_size=n, max_size=n))))
+    wu = draw(st.sampled_from(["m", "m", "um", "nm", "angstrom"]))
+    # temperature chosen from x = h c / (lambda k T) at the middle wavelength: thermal peak to Rayleigh-Jeans tail
+    x0 = draw(gen.pos_log(1e-5, 20.0))
+    return {"waves": w, "dtype": dt, "waveunit": wu, "valueunit": draw(st.sampled_from(FNAMES)), "x0": x0,
+            "scalar": draw(st.integers(0, 3)) == 0}
+
+
+@hyp("C14", "planck_integer", lambda tier: planck_int_case(tier),
+     "planck_radiance / planck_exitance at whole-number wavelengths held in integer arrays / numpy integer scalars / "
+     "Python ints of every width, in every (wavelength unit, flux unit): same physical quantity as the SI evaluation "
+     "of the same numbers as floats", examples=(300, 1200))
+def planck_integer(case, ctx):
+    wu, vu, dt = case["waveunit"], case["valueunit"], case["dtype"]
+    w = case["waves"][:1] if case["scalar"] else case["waves"]
+    lam = np.array(w, dtype=float) * SI[wu]
+    T = float(rad.H * rad.C / (lam[len(lam) // 2] * rad.K * case["x0"]))
+    if dt == "pyint":
+        if not case["scalar"]:
+            raise Skip("python_int_is_scalar_only")
+        wave = int(w[0])
+    else:
+        wave = np.array(w, dtype=dt)
+        if case["scalar"]:
+            wave = wave[0]
+    ctx.tag("waveunit:" + wu, "dtype:" + dt, "scalar" if case["scalar"] else "array",
+            "w^5>int64" if max(w) > 6208 else ("w^5>dtype" if dt not in ("int64", "uint64", "pyint") and max(w) ** 5 > np.iinfo(dt).max else "w^5_fits"))
+    ctx.nontrivial_if(True)
+    with lentil_call("C14.planck_int", f"planck_radiance/exitance({dt} wavelengths {w[:4]} {wu}, T={T:.4g}, {vu})"):
+        with np.errstate(all="ignore"):
+            L = np.atleast_1d(np.asarray(rad.planck_radiance(wave, T, waveunit=wu, valueunit=vu), dtype=float))
+            M = np.atleast_1d(np.asarray(rad.planck_exitance(wave, T, waveunit=wu, valueunit=vu), dtype=float))
+    to_w = {"wlam": np.ones_like(lam), "flam": np.full_like(lam, 1e-3), "photlam": rad.H * rad.C / lam}
+    L_si = L / SI[wu] * to_w[vu]
+    M_si = M / SI[wu] * to_w[vu]
+    with np.errstate(all="ignore"):
+        want = planck_si(lam, T, 1.0)
+    ok = np.isfinite(want) & (want > 1e-250)
+    xx = rad.H * rad.C / (lam * rad.K * T)
+    ptol = 1e-9 + 16 * np.finfo(float).eps / xx
+    if L_si.shape != want.shape or M_si.shape != want.shape:
+        raise Violation("C14.planck_int.shape", f"{len(w)} wavelengths gave {L.shape} / {M.shape} values")
+    for name, got, f in (("radiance", L_si, 1.0), ("exitance", M_si, np.pi)):
+        if np.any(~(np.abs(got[ok] - f * want[ok]) <= ptol[ok] * f * want[ok])):
+            raise Violation("C14.planck_int." + name,
+                            f"planck_{name}({wu}, {vu}) at the {dt} wavelengths {w[:4]} (T={T:.4g} K) is "
+                            f"{(got / f)[ok][:3]} in SI, the same numbers as floats give {want[ok][:3]}")
 
 
 @hyp("C14", "planck", lambda tier: planck_case(tier),
